@@ -105,7 +105,7 @@ def verdicts_unit(res: CheckResult, hist: dict, expected: Dict[int, dict], ic: A
             # invariants is left undefined by the documentation (inheritance needs DBC)
             continue
         for name, mv in view["members"].items():
-            if mv["kind"] not in ("fn", "prop", "static", "cls"):
+            if mv["kind"] not in ("fn", "prop", "pset", "static", "cls"):
                 continue
             cons = sorted(set(c for g in mv["pre"] for c in g) | set(mv["post"]) | set(view["inv"]))
             if not cons:
@@ -117,7 +117,7 @@ def verdicts_unit(res: CheckResult, hist: dict, expected: Dict[int, dict], ic: A
             assigns = list(itertools.product([True, False], repeat=len(cons)))
             if len(assigns) > max_assign:
                 assigns = rng.sample(assigns, max_assign)
-            wrapped = mv["kind"] in ("fn", "prop")   # public instance members are subject to the invariants
+            wrapped = mv["kind"] in ("fn", "prop", "pset")   # public instance members are subject to the invariants
             for bits in assigns:
                 rt.truth = {c: True for c in range(1, len(hist["con"]) + 1)}
                 try:
@@ -130,6 +130,8 @@ def verdicts_unit(res: CheckResult, hist: dict, expected: Dict[int, dict], ic: A
                 try:
                     if mv["kind"] == "prop":
                         getattr(inst, name)
+                    elif mv["kind"] == "pset":
+                        setattr(inst, name[:-3], 1)
                     elif mv["kind"] in ("static", "cls"):
                         getattr(cls, name)()
                     else:
